@@ -856,9 +856,15 @@ class ReadCache(PContract):
         proj, n = pre["proj"], pre["node"]
         c = proj.fields["_sp_cache"]
         ex.oblige(self.oname("frame:reads_only"), ctx.fs.eq(ctx.fs0))
+        if not isinstance(c, SCache):
+            # the in-memory cache must stay an object of its own: update_cache compares the file's content (the returned snapshot)
+            # with the in-memory cache *after* reconciling the latter with the workspace -- an alias makes that comparison trivial
+            ex.oblige(self.oname("ensures:the_in-memory_cache_does_not_alias_the_snapshot_returned_to_the_caller"), False, note=f"_sp_cache is now a {type(c).__name__}")
+            return
         ex.oblige(self.oname("inv:cache_entries_hash_to_their_key"), c.valid())
         if outcome[0] == "return":
             v = outcome[1]
+            ex.oblige(self.oname("ensures:the_in-memory_cache_does_not_alias_the_snapshot_returned_to_the_caller"), z3.BoolVal(v is not c))
             if v is None:
                 ex.oblige(self.oname("ensures:None_only_if_there_is_no_cache_file"), z3.And(z3.Not(Node.is_File(n)), c.dom == pre["dom0"], c.val == pre["val0"]))
             else:
